@@ -1938,7 +1938,13 @@ pub fn decompress_with_limit(
             }),
 
             WriteLenBytesToEnd => generate_state!(state, 'state_machine, {
-                if out_buf.bytes_left() > 0 {
+                if (l.dist as usize > out_buf.position() &&
+                    (flags & TINFL_FLAG_USING_NON_WRAPPING_OUTPUT_BUF != 0)) || (l.dist as usize > out_buf.get_ref().len())
+                {
+                    // The match is being resumed with a different buffer or mode than the
+                    // one it was checked against.
+                    Action::Jump(DistanceOutOfBounds)
+                } else if out_buf.bytes_left() > 0 {
                     let out_pos = out_buf.position();
                     let source_pos = out_buf.position()
                         .wrapping_sub(l.dist as usize) & out_buf_size_mask;
